@@ -550,8 +550,20 @@ namespace chaiscript {
         } else if ((loc & static_cast<uint_fast32_t>(Loc::is_local)) != 0u) {
           auto &stack = get_stack_data(t_holder);
 
-          return stack[stack.size() - 1 - ((loc & static_cast<uint_fast32_t>(Loc::stack_mask)) >> 16)].at_index(
-              loc & static_cast<uint_fast32_t>(Loc::loc_mask));
+          // The hint was recorded under the scope layout of an earlier evaluation of this node; the
+          // same code can run again under a different layout (recursion depth, a lambda called as a
+          // method, a conditional declaration), so only trust the slot if it still holds this name.
+          const auto depth = (loc & static_cast<uint_fast32_t>(Loc::stack_mask)) >> 16;
+          const auto idx = loc & static_cast<uint_fast32_t>(Loc::loc_mask);
+          if (depth < stack.size()) {
+            auto &scope = stack[stack.size() - 1 - depth];
+            if (idx < scope.size() && scope.data[idx].first == name) {
+              return scope.at_index(idx);
+            }
+          }
+
+          t_loc = 0;
+          return get_object(name, t_loc, t_holder);
         }
 
         // Is the value we are looking for a global or function?
